@@ -213,8 +213,27 @@ def gen_calls(rng, spec, cls, k, bias_evcut=0.35):
     return out
 
 
-def gen_scenario(rng):
-    spec = gen_spec(rng)
+def sibling_spec(rng, spec):
+    """another file of the same family as `spec`: same kind, columns and file-level header lines (so that a writer that
+    copies its header from a source path overwritten with this file still copies the same lines); different events,
+    particles, trailer and impact parameters"""
+    events, uid = [], 1
+    for _ in range(rng.randint(1, 4)):
+        ev = []
+        for _ in range(0 if rng.random() < 0.2 else rng.randint(1, 4)):
+            ev.append(rmodel.gen_row(rng, spec.cols, uid))
+            uid += 1
+        events.append(ev)
+    sib = Spec6(spec.kind, list(spec.cols), events, tab_headers=spec.tab_headers)
+    sib.version, sib.jver = getattr(spec, "version", "SMASH-3.1"), getattr(spec, "jver", "v2")
+    sib.sigma = rng.choice([x for x in SIGMAS if x != tuple(spec.sigma)])
+    off = rng.choice([0.375, 1.125, 4.0])
+    sib.impacts = ["%.3f" % (off + 0.5 * i) for i in range(len(events))]
+    return sib
+
+
+def gen_scenario(rng, spec=None):
+    spec = gen_spec(rng) if spec is None else spec
     cls = "jetscape" if spec.is_jetscape() else "oscar"
     nev = len(spec.events)
     r = rng.random()
@@ -346,7 +365,11 @@ class RealRun:
             self.out1 = self.path + ".w1" + spec.suffix()
             self.out2 = self.path + ".w2" + spec.suffix()
         else:
-            self.path, self.out1, self.out2 = paths
+            self.path, self.out1, self.out2 = paths[:3]
+        # output path aliasing: when the written file goes over a source path, the same object is first written to
+        # this fresh path; the two files must be byte-identical
+        self.ref = paths[3] if paths is not None and len(paths) > 3 else None
+        self.w_ref = None
         self.skipped = None
         self.keep = None          # line numbers kept by the constructor filters (reference semantics)
         self.dops = []            # driver encoding of the method history
@@ -415,7 +438,14 @@ class RealRun:
     def do_write(self):
         spec, obj = self.sc.spec, self.obj
         self.state = state_str(spec, obj, self.k2l)
-        if os.path.exists(self.out1):
+        if self.ref is not None:
+            try:
+                obj.print_particle_lists_to_file(self.ref)
+                with open(self.ref, newline="") as f:
+                    self.w_ref = f.read()
+            except Exception as e:
+                self.w_ref = e
+        if os.path.exists(self.out1) and self.out1 != self.path and self.ref is None:
             os.unlink(self.out1)         # a writer that raises must not leave the previous file of this path behind
         try:
             obj.print_particle_lists_to_file(self.out1)
@@ -588,10 +618,49 @@ class SessionBuilder:
         return list(range(first, first + len(scs)))
 
 
-def build_session(rng, scenarios, reuse=0.5):
+def add_alias_group(b, rng, sc, other=None, other_in_place=False):
+    """output path aliasing.  `sc` alone: the object is written over its OWN source path ("filter a file in place").
+    With `other` (a scenario on a sibling file, see `sibling_spec`): both are loaded, `sc` is written over the source
+    path of `other`, read back from there and re-written; afterwards `other` — whose source now holds `sc`'s file — is
+    written (to a fresh path, or in place), read back and re-written.  Every aliased write is preceded by a write of the
+    same object to a fresh path (4th slot) with which it must agree byte for byte."""
+    ses = b.session
+    first = len(ses.steps)
+    suffix = ".dat" if sc.spec.is_jetscape() or rng.random() < 0.3 else ".oscar"
+    used = set()
+
+    def fresh():
+        x = b.pick(suffix, used)
+        used.add(x)
+        return x
+    pa = fresh()
+    if other is None:
+        ses.steps.append((sc, (pa, pa, fresh(), fresh())))
+        ses.actions += [("load", first), ("write", first), ("reread", first), ("rewrite", first)]
+        return [first]
+    pb = fresh()
+    ses.steps.append((sc, (pa, pb, fresh(), fresh())))
+    ob = pb if other_in_place else fresh()
+    ses.steps.append((other, (pb, ob, fresh(), fresh())))
+    ses.actions += [("load", first), ("load", first + 1)]
+    ses.actions += [(a, first) for a in ("write", "reread", "rewrite")]
+    ses.actions += [(a, first + 1) for a in ("write", "reread", "rewrite")]
+    return [first, first + 1]
+
+
+def build_session(rng, scenarios, reuse=0.5, alias=0.25):
+    """`alias`: share of the scenarios whose written file goes over a source path (own / another live object's)"""
     b = SessionBuilder(rng, reuse)
     i = 0
     while i < len(scenarios):
+        if rng.random() < alias:
+            sc = scenarios[i]
+            i += 1
+            if rng.random() < 0.5:
+                add_alias_group(b, rng, sc)
+            else:
+                add_alias_group(b, rng, sc, gen_scenario(rng, sibling_spec(rng, sc.spec)), rng.random() < 0.4)
+            continue
         k = rng.choice([1, 1, 2, 2, 3, 4])
         b.add_group(scenarios[i:i + k])
         i += k
@@ -608,6 +677,7 @@ def run_session(session):
             paths[slot] = os.path.join(d, "f_" + slot + slot_suffix(slot))
         return paths[slot]
     runs = [RealRun(sc, tuple(path_of(x) for x in sl)) for sc, sl in session.steps]
+    tainted = {}
     try:
         for kind, i in session.actions:
             r = runs[i]
@@ -624,9 +694,19 @@ def run_session(session):
                 except Exception as e:
                     r.skipped = f"filter raised {type(e).__name__}"
             elif kind == "write":
+                if tainted.get(r.path, i) != i:
+                    # its source path was overwritten (by another object of the session) with a file that holds no
+                    # event / cannot be read: whatever the writer copies from there is not this object's business
+                    r.skipped = "source path overwritten with an unreadable file"
+                    continue
                 r.do_write()
+                tainted.pop(r.out1, None)
+                if isinstance(r.w, Exception):
+                    tainted[r.out1] = i
             elif kind == "reread":
                 r.do_reread()
+                if isinstance(r.rr, Exception):
+                    tainted[r.out1] = i
             elif kind == "rewrite":
                 r.do_rewrite()
     finally:
@@ -687,6 +767,14 @@ def path_sequences(rng):
                 spec.sigma = SIGMAS[j % len(SIGMAS)]
                 spec.impacts = ["%.3f" % (j + 0.5 * i) for i in range(len(spec.events))]
                 scs.append(Scenario(spec))
+            if mode == "out":        # additionally: in place, and over the source of another live object
+                for variant in ("own", "other", "other-in-place"):
+                    b = SessionBuilder(rng, reuse=0.0)
+                    if variant == "own":
+                        add_alias_group(b, rng, scs[0])
+                    else:
+                        add_alias_group(b, rng, scs[0], Scenario(sibling_spec(rng, scs[0].spec)), variant != "other")
+                    out.append(b.session)
             if mode == "group":
                 b = SessionBuilder(rng, reuse=0.0)
                 b.pool = {".dat": [], ".oscar": []}
@@ -820,7 +908,10 @@ def correspond(ctx):
                 "hypotheses of the theorems on the written bytes are compared with the Lean model; all cases of a run live in "
                 "one process as a session: about half of the input / output paths are re-used by later cases with different "
                 "content (write, read, overwrite, read; input path whose content changed; Oscar and JETSCAPE on one path) and "
-                "the round trips of 1-4 objects are interleaved; header version, sigmaGen and impact parameters differ from "
+                "the round trips of 1-4 objects are interleaved; a quarter of the objects are written over a SOURCE path (their "
+                "own = in-place update, or that of another live object on a sibling file which is written afterwards), after "
+                "a reference write of the same object to a fresh path with which the bytes must agree; header version, sigmaGen "
+                "and impact parameters differ from "
                 "file to file; non-trivial = selection, "
                 "constructor filters or at least one filter method; distinct by (file text, events=, filters, history)")
     ctx.assumptions.append("float()/int() and '%g'/'%.9g'/'%d' are parameters of the model (tables supplied by Python for "
@@ -951,6 +1042,16 @@ def oracle(sc, r):
     key = lambda sym: f"{cls}:{sit}:{sym}"
     if isinstance(r.w, Exception):
         return key("write-raises-" + type(r.w).__name__), f"print_particle_lists_to_file raised {type(r.w).__name__}: {r.w}"
+    if r.w_ref is not None:
+        if isinstance(r.w_ref, Exception):
+            return key("write-raises-" + type(r.w_ref).__name__), f"print_particle_lists_to_file raised {r.w_ref}"
+        if r.w_ref != r.w:
+            a, b = r.w_ref.split("\n"), r.w.split("\n")
+            i = next((k for k in range(min(len(a), len(b))) if a[k] != b[k]), min(len(a), len(b)))
+            return key("output-over-source"), \
+                f"the file written over a source path ({'its own' if r.out1 == r.path else 'that of another live object'}) " \
+                f"differs from the same object written to a fresh path: line {i}: " \
+                f"{(b[i] if i < len(b) else None)!r} instead of {(a[i] if i < len(a) else None)!r}"
     if isinstance(r.rr, Exception):
         return key("reread-raises-" + type(r.rr).__name__), \
             f"the written file cannot be read back: {type(r.rr).__name__}: {str(r.rr)[:120]}"
@@ -1154,8 +1255,9 @@ def report(ctx, sc, res, seen, ses=None, k=None):
     seen.add(key)
     small, kk = shrink_session(ses, k, res[0])
     res2 = session_oracle(small, kk) or res
-    ctx.violation(key, f"only in a sequence of round trips in one process (paths re-used with different content; the same "
-                       f"scenario alone, on fresh paths, is fine): step {kk}: {res2[1]}",
+    ctx.violation(key, f"only with the path layout / order of this session in one process (paths re-used with different "
+                       f"content, or the written file going over a source path; the same scenario alone, on fresh paths, "
+                       f"is fine): step {kk}, slots (in, out, re-written, reference) {list(small.steps[kk][1])}: {res2[1]}",
                   dict(input=dict(session=small.to_json(), failing_step=kk, describe=small.describe()),
                        how_to_replay="./check C06 --replay <this file>"))
 
